@@ -2,18 +2,22 @@
 
 package scale
 
-// Maps (Go map[K]V) for C11 / C12.  Maps are handled at the top level only:
+// Go maps (map[K]V) for C11 / C12.  A map is the top-level type of a case; its value type may be any
+// type that needs no pre-populated destination, or again a map (`map(K2,V2)`).
 //
-//   menc <ktype> <vtype> {k:v,k:v,...}
+//   menc <ktype> <vtype> {k:v,k:v,...}                                                  (C11)
 //        -> <canonical encoding: compact(n) ++ entries sorted by key> perm=<t|f> stable=<t|f>
 //        perm:   Marshal's output is compact(n) followed by the entries' canonical encodings in SOME order
 //        stable: 200 calls of Marshal all gave the canonical (sorted) encoding
-//   mdec <ktype> <vtype> <hex> <nil|made>
-//        -> ok <canonical encoding of the decoded map> <consumed> | err | panic
-//        the destination is a nil map or an empty made map
+//   mrt  <ktype> <vtype> {k:v,k:v,...}                                                  (C11)
+//        -> <canonical encoding> eq=<t|f> alias=<t|f>
+//        Marshal, then Unmarshal into a nil map; eq: the decoded map equals the original deeply;
+//        alias: two decoded entries share a pointer / map / slice (changing one would change the other)
+//   mdec <ktype> <vtype> <hex> <nil|made|dirty>                                         (C12)
+//        -> ok <canonical encoding of the decoded map> <consumed> [aliased] | err | panic
+//        the destination is a nil map, an empty made map, or a map holding one entry (c11DirtyVal)
 //
-// key types: u8 u16 u32 u64 i8 i16 i32 i64 str (comparable, ordered); value types: any type that
-// needs no pre-populated destination.
+// key types: u8 u16 u32 u64 i8 i16 i32 i64 str (comparable, ordered).
 
 import (
 	"bytes"
@@ -45,15 +49,7 @@ func c11SortedKeys(m reflect.Value) []reflect.Value {
 	return keys
 }
 
-// c11CanonMap is the canonical encoding of a map: compact length, entries in ascending key order.
-func c11CanonMap(kt, vt *c11Ty, m reflect.Value) []byte {
-	out := c12Compact(nil, bigFromInt(m.Len()), false)
-	for _, k := range c11SortedKeys(m) {
-		out = append(out, c11RefEncode(kt, k)...)
-		out = append(out, c11RefEncode(vt, m.MapIndex(k))...)
-	}
-	return out
-}
+func c11MapTy(kt, vt *c11Ty) *c11Ty { return &c11Ty{kind: "map", sub: []*c11Ty{kt, vt}} }
 
 // c11IsEntryPermutation reports whether enc is compact(n) followed by every entry exactly once.
 func c11IsEntryPermutation(kt, vt *c11Ty, m reflect.Value, enc []byte) bool {
@@ -102,35 +98,101 @@ func c11HasOptVdt(t *c11Ty) bool {
 	return false
 }
 
-func c11BuildMap(kt, vt *c11Ty, s string) reflect.Value {
-	m := reflect.MakeMap(reflect.MapOf(kt.goType(), vt.goType()))
-	p := &c11Parser{s: s}
-	p.eat('{')
-	for p.peek() != '}' {
-		k := kt.build(p)
-		p.eat(':')
-		v := vt.build(p)
-		m.SetMapIndex(k, v)
-		if p.peek() == ',' {
-			p.i++
+// c11Aliased reports whether two places of v share storage: the same non-nil pointer (to a type of
+// non-zero size), the same map, or the same slice memory.  Mutating one would change the other.
+func c11Aliased(v reflect.Value) bool {
+	seen := map[uintptr]bool{}
+	var walk func(v reflect.Value) bool
+	visit := func(p uintptr) bool {
+		if seen[p] {
+			return true
 		}
+		seen[p] = true
+		return false
 	}
-	p.eat('}')
-	if p.i != len(s) {
-		panic("c11: trailing input in map value")
+	walk = func(v reflect.Value) bool {
+		switch v.Kind() {
+		case reflect.Ptr:
+			if v.IsNil() {
+				return false
+			}
+			if v.Type().Elem().Size() > 0 && visit(v.Pointer()) {
+				return true
+			}
+			return walk(v.Elem())
+		case reflect.Map:
+			if v.IsNil() {
+				return false
+			}
+			if visit(v.Pointer()) {
+				return true
+			}
+			for _, k := range v.MapKeys() {
+				if walk(v.MapIndex(k)) {
+					return true
+				}
+			}
+		case reflect.Slice:
+			if v.Len() > 0 && v.Type().Elem().Size() > 0 && visit(v.Pointer()) {
+				return true
+			}
+			fallthrough
+		case reflect.Array:
+			if v.Type().Elem().Kind() == reflect.Uint8 {
+				return false
+			}
+			for i := 0; i < v.Len(); i++ {
+				if walk(v.Index(i)) {
+					return true
+				}
+			}
+		case reflect.Struct:
+			if v.Type() == reflect.TypeOf(big.Int{}) || v.Type() == reflect.TypeOf(Uint128{}) {
+				return false
+			}
+			for i := 0; i < v.NumField(); i++ {
+				if v.Type().Field(i).PkgPath == "" && walk(v.Field(i)) {
+					return true
+				}
+			}
+			if v.CanInterface() {
+				if e, ok := v.Interface().(EncodeVaryingDataType); ok {
+					if _, val, err := e.IndexValue(); err == nil {
+						return walk(reflect.ValueOf(val))
+					}
+				}
+			}
+		case reflect.Interface:
+			if !v.IsNil() {
+				return walk(v.Elem())
+			}
+		}
+		return false
 	}
-	return m
+	return walk(v)
 }
 
 func c11MapRun(f []string) string {
 	switch f[0] {
-	case "menc":
+	case "menc", "mrt":
 		if len(f) != 4 {
 			return "bad-op"
 		}
 		kt, vt := c11ParseTy(f[1]), c11ParseTy(f[2])
-		m := c11BuildMap(kt, vt, f[3])
-		canon := c11CanonMap(kt, vt, m)
+		mt := c11MapTy(kt, vt)
+		m := c11BuildValue(mt, f[3])
+		canon := c11RefEncode(mt, m)
+		if f[0] == "mrt" {
+			enc, err := Marshal(m.Interface())
+			if err != nil {
+				return "merr"
+			}
+			dst := reflect.New(mt.goType())
+			if err := Unmarshal(enc, dst.Interface()); err != nil {
+				return vhHex(canon) + " err"
+			}
+			return fmt.Sprintf("%s eq=%v alias=%v", vhHex(canon), c11Equal(dst.Elem(), m), c11Aliased(dst.Elem()))
+		}
 		perm, stable := true, true
 		for i := 0; i < 200; i++ {
 			enc, err := Marshal(m.Interface())
@@ -150,33 +212,83 @@ func c11MapRun(f []string) string {
 			return "bad-op"
 		}
 		kt, vt := c11ParseTy(f[1]), c11ParseTy(f[2])
+		mt := c11MapTy(kt, vt)
 		data := vhUnhex(f[3])
-		mt := reflect.MapOf(kt.goType(), vt.goType())
-		dst := reflect.New(mt)
-		if f[4] == "made" {
-			dst.Elem().Set(reflect.MakeMap(mt))
+		dst := reflect.New(mt.goType())
+		switch f[4] {
+		case "made":
+			dst.Elem().Set(reflect.MakeMap(mt.goType()))
+		case "dirty":
+			dst.Elem().Set(c11BuildValue(mt, c11DirtyVal(mt)))
 		}
 		buf := bytes.NewBuffer(append([]byte{}, data...))
-		if err := NewDecoder(buf).Decode(dst.Interface()); err != nil {
+		rd := &c11Abort{r: buf, limit: len(data) + 65536}
+		var err error
+		func() {
+			defer func() {
+				if r := recover(); r != nil {
+					if _, ok := r.(c11TooBig); ok {
+						err = fmt.Errorf("too big")
+						return
+					}
+					panic(r)
+				}
+			}()
+			err = NewDecoder(rd).Decode(dst.Interface())
+		}()
+		if err != nil {
 			return "err"
 		}
-		return fmt.Sprintf("ok %s %d", vhHex(c11CanonMap(kt, vt, dst.Elem())), len(data)-buf.Len())
+		al := ""
+		if c11Aliased(dst.Elem()) {
+			al = " aliased"
+		}
+		return fmt.Sprintf("ok %s %d%s", vhHex(c11RefEncode(mt, dst.Elem())), len(data)-buf.Len(), al)
 	}
 	return "bad-op"
 }
 
-// c11MapGen draws a map case (enc: menc, otherwise mdec): small maps, keys colliding now and then
-// in the value text (later entries overwrite earlier ones both in Go and in the model).
-func c11MapGen(r *vhRng, enc bool) string {
-	kt := &c11Ty{kind: c11MapKeyTypes[r.Intn(len(c11MapKeyTypes))]}
-	var vt *c11Ty
+// c11MapValueTy draws the value type of a map: the shapes that hold references are frequent
+// (options, nested maps, structs with an optional field, slices, varying data types).
+func c11MapValueTy(r *vhRng) *c11Ty {
 	for {
-		vt = c11GenTy(r, r.Intn(3), false)
+		var vt *c11Ty
+		switch r.Intn(8) {
+		case 0, 1:
+			vt = &c11Ty{kind: "opt", sub: []*c11Ty{c11GenTy(r, r.Intn(2), false)}}
+		case 2:
+			kt := &c11Ty{kind: c11MapKeyTypes[r.Intn(len(c11MapKeyTypes))]}
+			vt = c11MapTy(kt, c11GenTy(r, r.Intn(2), false))
+		case 3:
+			vt = &c11Ty{kind: "st", sub: []*c11Ty{{kind: "u8"},
+				{kind: "opt", sub: []*c11Ty{c11GenTy(r, 0, false)}}, c11GenTy(r, 1, false)}, tags: []string{"", "", ""}}
+		case 4:
+			s := c11GenTy(r, r.Intn(2), false)
+			if s.kind == "u8" && !s.named {
+				s.named = true
+			}
+			vt = &c11Ty{kind: "seq", sub: []*c11Ty{s}}
+		case 5:
+			vt = c11ParseTy([]string{c11EnumADesc, c11EnumBDesc}[r.Intn(2)])
+		default:
+			vt = c11GenTy(r, r.Intn(3), false)
+		}
 		if !c11SeqOfZeroSize(vt) && !c11HasOptVdt(vt) {
-			break
+			return vt
 		}
 	}
-	n := r.Intn(5)
+}
+
+// c11MapGen draws a map case (mode 0: menc, 1: mrt, 2: mdec): small maps, usually two or more
+// entries, keys colliding now and then in the value text (later entries overwrite earlier ones both
+// in Go and in the model).
+func c11MapGen(r *vhRng, mode int) string {
+	kt := &c11Ty{kind: c11MapKeyTypes[r.Intn(len(c11MapKeyTypes))]}
+	vt := c11MapValueTy(r)
+	for mode == 0 && vt.kind == "map" { // menc compares entry encodings: inner maps have no fixed one
+		vt = c11MapValueTy(r)
+	}
+	n := r.Pick(0, 1, 2, 2, 3, 3, 4)
 	var es []string
 	for i := 0; i < n; i++ {
 		k := c11GenVal(r, kt)
@@ -189,10 +301,12 @@ func c11MapGen(r *vhRng, enc bool) string {
 		es = append(es, k+":"+c11GenVal(r, vt))
 	}
 	val := "{" + strings.Join(es, ",") + "}"
-	if enc {
+	switch mode {
+	case 0:
 		return "menc " + kt.String() + " " + vt.String() + " " + val
+	case 1:
+		return "mrt " + kt.String() + " " + vt.String() + " " + val
 	}
-	m := c11BuildMap(kt, vt, val)
 	// the encoding the decoder sees: entries in the (possibly repeating) order of the text
 	var data []byte
 	data = append(data, c12Compact(nil, bigFromInt(n), false)...)
@@ -208,8 +322,7 @@ func c11MapGen(r *vhRng, enc bool) string {
 			p.i++
 		}
 	}
-	_ = m
-	switch r.Intn(6) {
+	switch r.Intn(8) {
 	case 0:
 		if len(data) > 0 {
 			data = data[:r.Intn(len(data))]
@@ -222,9 +335,6 @@ func c11MapGen(r *vhRng, enc bool) string {
 			data[r.Intn(len(data))] ^= 1 << bit
 		}
 	}
-	dst := "made"
-	if r.Chance(1, 3) {
-		dst = "nil"
-	}
+	dst := []string{"made", "made", "nil", "nil", "dirty"}[r.Intn(5)]
 	return "mdec " + kt.String() + " " + vt.String() + " " + vhHex(data) + " " + dst
 }
